@@ -36,16 +36,23 @@ func VerifH16() {
 			return nil
 		}}
 	}
+	// every sender hands over its job under a context of its own and cancels it as soon as Send
+	// has returned (a request context; `defer cancel()`): an accepted job runs all the same
+	send := func(i int) {
+		sctx, cancel := context.WithCancel(ctx)
+		p.Send(sctx, job(i))
+		cancel()
+	}
 	split := nd.Choice("second-sender-from", S+1) // jobs >= split are sent by a second thread
 	if split < S {
 		go func() {
 			for i := split; i < S; i++ {
-				p.Send(ctx, job(i))
+				send(i)
 			}
 		}()
 	}
 	for i := 0; i < split; i++ {
-		p.Send(ctx, job(i))
+		send(i)
 	}
 	// Send returned (it never waits for a free worker). Let everything settle, then free the worker.
 	nd.Quiescent()
